@@ -238,7 +238,7 @@ func LatticeCases(rows []RobustRow) []RobustCase {
 				tb, _ := proto.Marshal(tree)
 				ar := &pb.ActionResult{OutputFiles: []*pb.OutputFile{{Path: "f", Digest: storeCAS(f, drv.GenData(rng, 10, 0))}},
 					OutputDirectories: []*pb.OutputDirectory{{Path: "d", TreeDigest: storeCAS(f, tb)}},
-					StdoutDigest: storeCAS(f, drv.GenData(rng, 5, 0)), StderrDigest: storeCAS(f, drv.GenData(rng, 5, 0)),
+					StdoutDigest:      storeCAS(f, drv.GenData(rng, 5, 0)), StderrDigest: storeCAS(f, drv.GenData(rng, 5, 0)),
 					ExecutionMetadata: &pb.ExecutedActionMetadata{Worker: "w"}}
 				if has(r.Unset, "file.digest") {
 					ar.OutputFiles[0].Digest = nil
@@ -458,7 +458,7 @@ func CatalogueCases() []RobustCase {
 		w, e := f2.BS.Write(ctx)
 		if e == nil {
 			d := dg(all)
-			e = w.Send(&bytestream.WriteRequest{ResourceName: fmt.Sprintf("uploads/%08x-1111-2222-3333-444444444444/blobs/%s/%d", rng.Uint32(), d.Hash, d.SizeBytes), Data: all[:1 << 20]})
+			e = w.Send(&bytestream.WriteRequest{ResourceName: fmt.Sprintf("uploads/%08x-1111-2222-3333-444444444444/blobs/%s/%d", rng.Uint32(), d.Hash, d.SizeBytes), Data: all[:1<<20]})
 			if e == nil {
 				_ = w.Send(&bytestream.WriteRequest{WriteOffset: 1 << 20, Data: all[1<<20:], FinishWrite: true})
 			}
@@ -543,8 +543,8 @@ func AfterRequest(f *fe.Fixture) []string {
 	if left > 0 {
 		out = append(out, fmt.Sprintf("%d goroutine(s) of the request still alive 1.5 s after it ended: %s", left, sample))
 	}
-	if n := openCacheFiles(f.Dir); n != 0 {
-		out = append(out, fmt.Sprintf("%d descriptor(s) into the cache directory still open", n))
+	if !waitFor(func() bool { return openCacheFiles(f.Dir) == 0 }, 3*time.Second) {
+		out = append(out, fmt.Sprintf("%d descriptor(s) into the cache directory still open", openCacheFiles(f.Dir)))
 	}
 	if _, resv, _, _ := f.Cache.Stats(); resv != 0 {
 		out = append(out, fmt.Sprintf("reserved=%d after the request ended", resv))
